@@ -29,6 +29,23 @@ def parseHexList : List String → Option (List (List Byte))
     let b ← parseHexList r
     pure (a :: b)
 
+/-- `decs` with abandoned frames: `none` stands for "the caller gives the frame in progress up and empties its
+    buffer" - it keeps its other decoder variables, which is all the decoder asks of it -/
+def readChunksAbandon : Model.RState → List (Option (List Byte)) → List (Res (List Msg))
+  | _, [] => []
+  | st, none :: cs => readChunksAbandon { st with buf := [] } cs
+  | st, some c :: cs => let (st', r) := Model.readPlain st c; r :: readChunksAbandon st' cs
+
+def parseHexOrX : List String → Option (List (Option (List Byte)))
+  | [] => some []
+  | "X" :: r => do
+    let b ← parseHexOrX r
+    pure (none :: b)
+  | h :: r => do
+    let a ← bytesOfHex h
+    let b ← parseHexOrX r
+    pure (some a :: b)
+
 def step (line : String) : String :=
   if line.startsWith "hist " then Driver.runHist line else
   if line.startsWith "cli " then Driver.cliLine line else
@@ -43,6 +60,10 @@ def step (line : String) : String :=
   | "decs" :: hs =>
     match parseHexList hs with
     | some cs => " | ".intercalate ((Model.readChunks {} cs).map (resToString msgsToString))
+    | none => "bad-op"
+  | "decsa" :: hs =>
+    match parseHexOrX hs with
+    | some cs => " | ".intercalate ((readChunksAbandon {} cs).map (resToString msgsToString))
     | none => "bad-op"
   | ["spec", h] =>
     match bytesOfHex h with
